@@ -54,6 +54,34 @@ func levelApp(name string, isFlag bool) func(out *[]string) *cli.Cli {
 	}
 }
 
+func lateOptApp(used bool) func(out *[]string) *cli.Cli {
+	return func(out *[]string) *cli.Cli {
+		app := cli.App("lateopt", "")
+		app.ErrorHandling = flag.ContinueOnError
+		app.Spec = "[OPTIONS] [X]"
+		a := app.BoolOpt("a", false, "")
+		x := app.StringArg("X", "", "")
+		var n *int
+		app.Action = func() {
+			nv := -1
+			if n != nil {
+				nv = *n
+			}
+			*out = append(*out, "ACT", show("a", *a), show("n", nv), show("X", *x))
+		}
+		if used {
+			func() {
+				defer func() { recover() }()
+				app.Run([]string{"lateopt", "-a", "first"})
+			}()
+			*out = nil
+			*a, *x = false, ""
+		}
+		n = app.IntOpt("n num", 1, "")
+		return app
+	}
+}
+
 func show(name string, v interface{}) string { return fmt.Sprintf("%s=%v", name, v) }
 
 func concApps() []concApp {
@@ -168,6 +196,10 @@ func concApps() []concApp {
 				app.Command("child", "", func(c *cli.Cmd) { c.Spec = "[-z" })
 				return app
 			}},
+		// an application that already ran once and then got one more option, and its twin that declares everything up-front and never
+		// ran: the outcome is a function of the declarations and the argument vector only
+		{"lateopt", [][]string{{"-n", "3"}, {"-a", "-n=4", "x"}, {"x"}, {"-n"}}, lateOptApp(true)},
+		{"lateopt_fresh", [][]string{{"-n", "3"}, {"-a", "-n=4", "x"}, {"x"}, {"-n"}}, lateOptApp(false)},
 		{"lvlflag", [][]string{{"-l", "high"}, {"-l"}, {"-l=true", "x"}, {"x"}}, levelApp("lvlflag", true)},
 		{"lvlval", [][]string{{"-l", "high"}, {"-l"}, {"-l=high", "x"}, {"-lhigh"}}, levelApp("lvlval", false)},
 		// an option and an argument at one level: two conversion errors in one invocation, an option and an argument bound to the
@@ -305,6 +337,16 @@ func init() {
 			rep.Sequential++
 		}
 		rep.Samples = append(rep.Samples, ref[1], ref[8], ref[13])
+		// 1a. twins (<name> and <name>_fresh: the same declarations, one of them used before): the same outcomes
+		for i, c := range cases {
+			for j, d := range cases {
+				if d.a.name == c.a.name+"_fresh" && strings.Join(d.argv, "\x00") == strings.Join(c.argv, "\x00") && ref[i] != ref[j] {
+					if len(rep.Mismatches) < 20 {
+						rep.Mismatches = append(rep.Mismatches, fmt.Sprintf("twins: %s %v: the used application gives %q, the fresh one %q", c.a.name, c.argv, ref[i], ref[j]))
+					}
+				}
+			}
+		}
 		// 1b. every case alone in a process of its own: nothing an earlier application left behind in this process may matter
 		for i := range cases {
 			outb, err := exec.Command(os.Args[0], "concone", strconv.Itoa(i)).Output()
